@@ -20,7 +20,7 @@ import json, os, re, subprocess, sys, time
 # sim/Cargo.toml points at the clone) so that a sweep does not occupy /repo itself
 REPO = os.environ.get('MS_REPO', '/repo')
 VERIF = os.environ.get('MS_VERIF', '/verif')
-OUT = os.path.join(VERIF, 'tools', 'mutation_sweep_c19arith.jsonl' if '--regions' in sys.argv else ('mutation_sweep_stmt.jsonl' if ('--mode' in sys.argv and 'stmt' in sys.argv) else 'mutation_sweep.jsonl'))
+OUT = os.path.join(VERIF, 'tools', ('mutation_sweep_%s.jsonl' % sys.argv[sys.argv.index('--regions') + 1]) if '--regions' in sys.argv else ('mutation_sweep_stmt.jsonl' if ('--mode' in sys.argv and 'stmt' in sys.argv) else 'mutation_sweep.jsonl'))
 
 # (file, first line, last line, properties to try in order); line ranges are inclusive, 1-based, and
 # cover the code the three properties are anchored in (test modules and the PxE2<N> impls excluded)
@@ -29,6 +29,12 @@ def regions():
         # the arithmetic the samplers call: P32E2 subtraction of 1.0 from 1.x, and P16E1::form_ui
         return [('src/p32e2/ops.rs', 33, 51, ['C19']), ('src/p32e2/ops.rs', 154, 185, ['C19']),
                 ('src/p32e2/ops.rs', 311, 385, ['C19']), ('src/p16e1/ops.rs', 13, 37, ['C19'])]
+    if '--regions' in sys.argv and sys.argv[sys.argv.index('--regions') + 1] == 'helpers':
+        # the posit helpers the quire code shares with the posit arithmetic: sign / regime / pack / separate
+        # (calculate_scale is not used by the quires)
+        return [('src/p8e0.rs', 84, 137, ['C04', 'C12']), ('src/p8e0.rs', 153, 163, ['C04', 'C12']),
+                ('src/p16e1.rs', 94, 150, ['C04', 'C12']), ('src/p16e1.rs', 169, 179, ['C04', 'C12']),
+                ('src/p32e2.rs', 92, 150, ['C04', 'C12']), ('src/p32e2.rs', 170, 180, ['C04', 'C12'])]
     r = []
     def upto_tests(path):
         lines = open(os.path.join(REPO, path)).read().split('\n')
